@@ -96,6 +96,25 @@ CLAIMED = {
         note=BASE_NOTE + 'open_mfdataset / pncmfopen / stack_files front-ends are not exercised yet.',
         technique='Lean 4 proof (mutual structural induction on nested arrays, induction over the cut list) + model/implementation correspondence',
         design='§7 C04'),
+    'C09': dict(
+        text=('The Lean model is the independent codec: a word-level reference encoder/decoder for the uamiv family written '
+              'from the format description, with theorems for ALL contents (any species list, grid, layers, steps, payload): '
+              'Fortran records tile the encoded file exactly (markers agree, no gaps, size = payload + 2 markers/record), '
+              'header counts equal the content counts, the independent decoder recovers exactly what was encoded. Both '
+              'directions are exercised on every run: library writer bytes == reference encoding (plus an independent python '
+              'record walker), and the library reader on reference-encoded files == the Lean reader model.'),
+        note=BASE_NOTE + 'PARTIAL: only the uamiv (gridded average/emissions/instant/airquality) family is modelled so far; lateral_boundary, landuse, meteorological formats and bpch are not covered by this check yet. numpy tofile/memmap and float32<->bits are trusted.',
+        technique='Lean 4 proof (codec round trip by induction over steps/species/layers; framing lemma) + model/implementation correspondence in both directions',
+        design='§7 C08-C09-C13-C14'),
+    'C14': dict(
+        text=('Lean theorem about the model of the memory-mapped uamiv reader, for ANY accepted file and EVERY byte offset '
+              'at which it can be cut: opening the prefix either raises or presents exactly the first k complete time steps '
+              'with identical header, grid, species and counts (never shifted or partly filled values); cuts off a word '
+              'boundary always raise. Correspondence of the reader model with the real reader on every cut point of small '
+              'generated files (quick: all record boundaries +-4 bytes and random offsets; thorough: every byte).'),
+        note=BASE_NOTE + 'PARTIAL: uamiv Memmap reader only; lateral_boundary, meteorological and bpch readers are not in this check yet (the wind reader is known not to terminate on some prefixes, see DESIGN.md).',
+        technique='Lean 4 proof (prefix invariance of fixed-stride reads, divisibility argument for the partial-time check) + model/implementation correspondence over cut points',
+        design='§7 C08-C09-C13-C14'),
 }
 
 NOT_YET = {}
